@@ -20,6 +20,7 @@ type srcCase struct {
 	Prog    []any  `json:"prog"`
 	Tape    any    `json:"tape"`
 	PLen    int    `json:"plen"`
+	RetA    int    `json:"reta"`
 	Ideal   []any  `json:"ideal"`
 	Same    bool   `json:"same"`
 	AsBuilt []any  `json:"asbuilt"`
@@ -104,6 +105,8 @@ type srcOpts struct {
 	Import   string // "dot" (default) | "named" | "renamed"
 	Trailing string // "needed" (default) | "always"
 	Stage    bool   // keep the unoptimised stage (C07)
+	Opt      bool   // declare the helpers of the eta-shape closures in every package
+	By       bool   // programs are bystanders: plain functions next to a generator (C13)
 	PerPkg   int    // programs per package (crash isolation granularity)
 	Race     bool
 }
@@ -177,6 +180,33 @@ type Out struct {
 }
 
 type mk = func(*rt.Rec, int, int) It
+
+// byIt runs a bystander (a plain function of a processed file) as a one-shot "iterator":
+// the only advance runs the function, logs its result and the package-level extras, and reports false.
+type byIt struct {
+	f       func(*rt.Rec, int, int) int
+	r       *rt.Rec
+	a, b    int
+	extras  func() []int
+}
+
+func (x *byIt) MoveNext() bool {
+	if x.f != nil {
+		f := x.f
+		x.f = nil
+		res := f(x.r, x.a, x.b)
+		x.r.Log = append(x.r.Log, append([]any{"ret", res}, toAny(x.extras())...))
+	}
+	return false
+}
+func (x *byIt) Current() int { return 0 }
+func toAny(xs []int) []any {
+	out := make([]any, len(xs))
+	for i, v := range xs {
+		out[i] = v
+	}
+	return out
+}
 
 var genAll = map[int]mk{}
 var tmpAll = map[int]mk{}
@@ -309,17 +339,34 @@ func runSrcFamilyN(c *vf.Check, cases []srcCase, callsOf func(i int) int, o srcO
 		var b strings.Builder
 		b.WriteString("package nat\n\nimport \"scratch/rt\"\n\nvar _ = rt.Y\n\n")
 		if fi == 0 {
-			b.WriteString("var All = []func(*rt.Rec, int, int) *rt.NIter{\n")
-			for i := 0; i < np; i++ {
-				fmt.Fprintf(&b, "\tG%d,\n", i)
+			if o.By {
+				b.WriteString("var All = []func(*rt.Rec, int, int) int{\n")
+				for i := 0; i < np; i++ {
+					fmt.Fprintf(&b, "\tB%d,\n", i)
+				}
+			} else {
+				b.WriteString("var All = []func(*rt.Rec, int, int) *rt.NIter{\n")
+				for i := 0; i < np; i++ {
+					fmt.Fprintf(&b, "\tG%d,\n", i)
+				}
 			}
 			b.WriteString("}\n")
 			if o.Deleg {
 				b.WriteString(delegNat)
 			}
+			if o.Opt || o.By {
+				b.WriteString(optDecls)
+			}
+			if o.By {
+				b.WriteString(strings.ReplaceAll(strings.ReplaceAll(byExtras, "sidecount.Has(\"sidePKG\")", "1"), "PKG", "nat"))
+			}
 		}
 		for i := fi * per; i < (fi+1)*per && i < np; i++ {
-			b.WriteString(natR.genFunc(fmt.Sprintf("G%d", i), arr(run.Progs[i]), o.Trailing))
+			if o.By {
+				b.WriteString(natR.byFunc(fmt.Sprintf("B%d", i), arr(run.Progs[i])))
+			} else {
+				b.WriteString(natR.genFunc(fmt.Sprintf("G%d", i), arr(run.Progs[i]), o.Trailing))
+			}
 			b.WriteString("\n")
 		}
 		writeFile(filepath.Join(dir, "nat", fmt.Sprintf("f%d.go", fi)), b.String())
@@ -328,17 +375,46 @@ func runSrcFamilyN(c *vf.Check, cases []srcCase, callsOf func(i int) int, o srcO
 	// go-co packages: one program per file, PerPkg per package
 	coR := &srcRenderer{md: coMode, api: api}
 	hdr := func(pkg string) string {
+		if o.By {
+			// a side-effect import and an import used only by non-generator code: both must survive
+			return "//go:build co\n\npackage " + pkg + "\n\nimport (\n" + importLine + "\t\"scratch/rt\"\n\t_ \"scratch/side" + pkg + "\"\n\t\"scratch/sidecount\"\n)\n\nvar _ = rt.Y\nvar _ " + api + "Iter[int]\nvar _ = sidecount.Has\n\n"
+		}
 		return "//go:build co\n\npackage " + pkg + "\n\nimport (\n" + importLine + "\t\"scratch/rt\"\n)\n\nvar _ = rt.Y\nvar _ " + api + "Iter[int]\n\n"
 	}
+	if o.By {
+		writeFile(filepath.Join(dir, "sidecount", "sidecount.go"), "package sidecount\n\nvar Loaded = map[string]bool{}\n\nfunc Has(s string) int {\n\tif Loaded[s] {\n\t\treturn 1\n\t}\n\treturn 0\n}\n")
+		for pk := 0; pk*o.PerPkg < np; pk++ {
+			name := fmt.Sprintf("sidegen%03d", pk)
+			writeFile(filepath.Join(dir, name, "side.go"), "package "+name+"\n\nimport \"scratch/sidecount\"\n\nfunc init() { sidecount.Loaded[\""+name+"\"] = true }\n")
+		}
+	}
 	u := unitSpec{N: np, PerPkg: o.PerPkg, Stage: o.Stage, Hdr: hdr,
-		File: func(i int) string { return coR.genFunc(fmt.Sprintf("G%d", i), arr(run.Progs[i]), o.Trailing) },
+		File: func(i int) string {
+			if o.By {
+				return coR.byFunc(fmt.Sprintf("B%d", i), arr(run.Progs[i]))
+			}
+			return coR.genFunc(fmt.Sprintf("G%d", i), arr(run.Progs[i]), o.Trailing)
+		},
 		All: func(pkg string, live []int) string {
 			var all strings.Builder
+			if o.By {
+				// every file of the package is processed (it imports and uses the API): one generator per file
+				all.WriteString("var All = map[int]func(*rt.Rec, int, int) int{\n")
+				for _, i := range live {
+					fmt.Fprintf(&all, "\t%d: B%d,\n", i, i)
+				}
+				all.WriteString("}\n\nfunc GenInAll(r *rt.Rec) " + api + "Iter[int] { " + api + "Yield(1); return nil }\n")
+				all.WriteString(optDecls + strings.ReplaceAll(byExtras, "PKG", pkg))
+				return all.String()
+			}
 			all.WriteString("var All = map[int]func(*rt.Rec, int, int) " + api + "Iter[int]{\n")
 			for _, i := range live {
 				fmt.Fprintf(&all, "\t%d: G%d,\n", i, i)
 			}
 			all.WriteString("}\n")
+			if o.Opt {
+				all.WriteString(optDecls)
+			}
 			if o.Deleg {
 				all.WriteString(strings.ReplaceAll(strings.ReplaceAll(strings.ReplaceAll(delegCo, "Iter[int]", api+"Iter[int]"), "Yield(", api+"Yield("), "YieldFrom(", api+"YieldFrom("))
 			}
@@ -351,7 +427,11 @@ func runSrcFamilyN(c *vf.Check, cases []srcCase, callsOf func(i int) int, o srcO
 	var imp, reg strings.Builder
 	for pk := 0; pk < npk; pk++ {
 		fmt.Fprintf(&imp, "\tgen%03d \"scratch/gen%03d\"\n", pk, pk)
-		fmt.Fprintf(&reg, "\tfor k, v := range gen%03d.All {\n\t\tv := v\n\t\tgenAll[k] = func(r *rt.Rec, a, b int) It { return v(r, a, b) }\n\t}\n", pk)
+		if o.By {
+			fmt.Fprintf(&reg, "\tfor k, v := range gen%03d.All {\n\t\tv := v\n\t\tgenAll[k] = func(r *rt.Rec, a, b int) It { return &byIt{f: v, r: r, a: a, b: b, extras: gen%03d.Extras} }\n\t}\n", pk, pk)
+		} else {
+			fmt.Fprintf(&reg, "\tfor k, v := range gen%03d.All {\n\t\tv := v\n\t\tgenAll[k] = func(r *rt.Rec, a, b int) It { return v(r, a, b) }\n\t}\n", pk)
+		}
 		if o.Stage {
 			if _, err := os.Stat(filepath.Join(dir, fmt.Sprintf("gen%03dstage", pk))); err == nil {
 				fmt.Fprintf(&imp, "\ttmp%03d \"scratch/gen%03dstage\"\n", pk, pk)
@@ -361,6 +441,9 @@ func runSrcFamilyN(c *vf.Check, cases []srcCase, callsOf func(i int) int, o srcO
 	}
 	drv := strings.Replace(srcDriverSrc, "//IMPORTS\n", imp.String(), 1)
 	drv = strings.Replace(drv, "//REGISTER\n", reg.String(), 1)
+	if o.By {
+		drv = strings.Replace(drv, "return nat.All[in.Idx](r, a, b)", "return &byIt{f: nat.All[in.Idx], r: r, a: a, b: b, extras: nat.Extras}", 1)
+	}
 	writeFile(filepath.Join(dir, "main.go"), drv)
 	args := []string{"build", "-o", "driver"}
 	if o.Race {
@@ -559,6 +642,23 @@ func prepareStage(c *vf.Check, dir, d string) {
 		}
 	}
 }
+
+// package-level declarations of bystander packages that are not functions: constant, initialised
+// variable, type with method, side-effect import, import used only here
+const byExtras = `
+const K = 40 + 2
+
+var initialised = initV()
+
+func initV() int { return 7 }
+
+type pt struct{ x, y int }
+
+func (p pt) sum() int { return p.x + p.y }
+
+// Extras exposes the non-function declarations: expected 42, 7, 3, 1
+func Extras() []int { return []int{K, initialised, pt{1, 2}.sum(), sidecount.Has("sidePKG")} }
+`
 
 // ---------------------------------------------------------------- judging
 
